@@ -243,8 +243,12 @@ inductive WR where
   | failure
   deriving Repr, DecidableEq
 
+/-- `has_total_supply_loaded` (blockchain.rs:1514) for histories shorter than the window: the index knows block 1.
+    Only then does `Block::validate` / `Transaction::validate` check inputs against the utxo set. -/
+def againstUtxo (st : State) : Bool := (lcHashAt st 1).isSome
+
 def validB (fl : Flags) (st : State) (b : ABlock) : Bool :=
-  b.ok && (!fl.txVerdict || b.ins.all (· ∈ st.utxo))
+  b.ok && (!fl.txVerdict || !againstUtxo st || b.ins.all (· ∈ st.utxo))
 
 def windBlock (st : State) (b : ABlock) : State :=
   let st := ringReorg st b.id b.hash true
@@ -293,12 +297,16 @@ def runWR (fl : Flags) (newC oldC : List Nat) : Nat → State → WR → Option 
 
 def blocksOf (st : State) (l : List Nat) : List ABlock := l.filterMap fun h => (getB st h).map (·.b)
 
+/-- validity as the repaired reorganisation applies it: inputs are always checked against the ledger -/
+def validBS (fl : Flags) (st : State) (b : ABlock) : Bool :=
+  b.ok && (!fl.txVerdict || b.ins.all (· ∈ st.utxo))
+
 /-- the repaired reorganisation: unwind old (tip first), wind new (oldest first) while valid; on the first
     invalid block unwind what was wound, re-wind the old chain, and fail -/
 def windAll (fl : Flags) : List ABlock → State → List ABlock → State × Bool × List ABlock
   | [], st, done => (st, true, done)
   | b :: rest, st, done =>
-    if validB fl st b then windAll fl rest (windBlock st b) (b :: done) else (st, false, done)
+    if validBS fl st b then windAll fl rest (windBlock st b) (b :: done) else (st, false, done)
 
 def reorgFixed (fl : Flags) (newC oldC : List Nat) (st : State) : State × Bool :=
   let oldBs := blocksOf st oldC            -- tip first
